@@ -4,7 +4,7 @@ import ast
 
 from .. import AnalysisError
 from ..cfg import ALL_KINDS, NORMAL_KINDS, iter_own
-from ..lib import collections_from, attr_stores, dominated_by, guard_forms, key_of, norm, render, type_is
+from ..lib import collections_from, comp_norm, attr_stores, dominated_by, guard_forms, key_of, norm, render, type_is
 from ..report import describe, rule
 
 P = "C19"
@@ -23,6 +23,14 @@ describe(
 
 ACC = "AsyncCliCommand"
 
+
+
+
+def inlined_src(ctx, fn, expr, node):
+    """Source of `expr` with single-definition locals inlined (blanks kept)."""
+    from ..lib import inline_locals
+
+    return ast.unparse(inline_locals(ctx, fn, expr, node))
 
 
 def _defines(ctx, fn, col, call):
@@ -92,11 +100,22 @@ def c19_1(ctx, r):
                 recv = ctx.guards(gj).expand(recv, n)
         oke = isinstance(recv, ast.Call) and isinstance(recv.func, ast.Attribute) and recv.func.attr == "job_execution_class" and render(ctx, gj, recv.func.value) == "<JobRunner._config>" and len(recv.args) == 1 and ctx.src(recv.args[0]) == f"{ctx.src(job)}.extension"
         r.check(oke, "the execution class is the job's extension's", key_of(gj, "extension"), s2.loc, f"generate_command is taken from `{ctx.src(recv) if recv is not None else None}`, not from the execution class of this job's extension")
+    # a commands file is one command per line, lines ending at "\n" only (str.splitlines also splits at \x0b, \x0c, \x1c-\x1e,
+    # \x85, U+2028/9, which may occur inside a quoted argument)
+    gi = ctx.fn("GenericCommandInputs.__init__", "C19.1")
+    sl = [c for c in iter_own(gi.node) if isinstance(c, ast.Call) and isinstance(c.func, ast.Attribute) and c.func.attr == "splitlines"]
+    r.check(not sl, "the commands file is split at newlines only", key_of(gi, "commands split with splitlines()"), gi.loc(sl[0]) if sl else gi.loc(),
+            "the commands file is cut with str.splitlines(): a command whose quoted argument contains a vertical tab, form feed, NEL or a Unicode line separator becomes several jobs with unbalanced quotes",
+            "Each job is executed as the configured command")
+    lines_ok = any(isinstance(n, ast.For) and (ctx.src(n.iter).endswith(".readlines()") or (isinstance(n.iter, ast.Name)) or ctx.src(n.iter).endswith('.split("\\n")') or ctx.src(n.iter).endswith(".split('\\n')")) for n in iter_own(gi.node))
+    r.check(lines_ok, "one job per line of the file", key_of(gi, "line loop"), gi.loc(), "GenericCommandInputs no longer iterates the lines of the commands file")
     ge = ctx.fn("GenericCommandExecution.generate_command", "C19.1")
     first = [x for x in ge.node.body if isinstance(x, ast.Assign)]
-    r.check(bool(first) and ctx.src(first[0]) == "cmd = job.command", "generic_command: the command starts as job.command", key_of(ge, "base command"), ge.loc(), "generate_command does not start from job.command")
+    gret = [x for x in iter_own(ge.node) if isinstance(x, ast.Return) and isinstance(x.value, ast.Name)]
+    CMD = gret[-1].value.id if gret else None
+    r.check(bool(first) and CMD is not None and ctx.src(first[0]) == f"{CMD} = job.command", "generic_command: the command starts as job.command", key_of(ge, "base command"), ge.loc(), "generate_command does not start from job.command")
     rets = [x for x in iter_own(ge.node) if isinstance(x, ast.Return)]
-    r.check(len(rets) == 1 and ctx.src(rets[0].value) == "cmd", "and that string is returned", key_of(ge, "return"), ge.loc(), "generate_command returns something else")
+    r.check(len(rets) == 1 and CMD is not None and ctx.src(rets[0].value) == CMD, "and that string is returned", key_of(ge, "return"), ge.loc(), "generate_command returns something else")
     cp = ctx.fn("GenericCommandParameters.command", "C19.1")
     # a wrapper command replaces the configured one only when its feature is switched on
     for n in ctx.cfg(cp).nodes:
@@ -178,7 +197,13 @@ def c19_4(ctx, r):
     for s2 in ap:
         kw2 = {k.arg: ctx.src(k.value) for k in s2.node.keywords}
         args = [ctx.src(x) for x in s2.node.args]
-        r.check(args[:2] == ["self._output", "result"] and kw2.get("batch_id") == "self._batch_id", "the row goes to this batch's node file of this output directory", key_of(cp, "append target"), s2.loc, f"append({args}, {kw2})")
+        # the row written is the Result constructed in this function (role, not spelling)
+        okres = False
+        if len(s2.node.args) >= 2 and isinstance(s2.node.args[1], ast.Name):
+            for n9 in ctx.nodes_of(cp, s2.node):
+                ud9 = ctx.rd(cp).unique_def(n9, s2.node.args[1].id)
+                okres = ud9 is not None and isinstance(ud9[1], ast.Call) and ud9[1] is s.node
+        r.check(args[:1] == ["self._output"] and okres and kw2.get("batch_id") == "self._batch_id", "the row goes to this batch's node file of this output directory", key_of(cp, "append target"), s2.loc, f"append({args}, {kw2})")
     # _hpc_job_id <- constructor <- intf.get_current_job_id()
     init = ctx.fn(f"{ACC}.__init__", "C19.4")
     for f2, node, attr, t, kind in attr_stores(ctx, {"_hpc_job_id"}):
@@ -197,20 +222,26 @@ def c19_4(ctx, r):
     r.check("SLURM_JOB_ID" in ctx.src(sm.node), "SLURM: the id is $SLURM_JOB_ID", key_of(sm, "env var"), sm.loc(), "get_current_job_id no longer reads SLURM_JOB_ID")
     # serialisation order of a row = Result._fields (writer and reader agree)
     ra = ctx.fn("ResultsAggregator.append_result", "C19.4")
-    r.check("getattr(result, x)" in ctx.src(ra.node) and "self._get_fields()" in ctx.src(ra.node), "a row lists the Result fields in declaration order", key_of(ra, "row order"), ra.loc(), "append_result no longer serialises Result._fields in order")
+    okrow = any(isinstance(c, (ast.ListComp, ast.GeneratorExp)) and comp_norm(c) in (f"[str(getattr({ra.params[-1]},_))for_inself._get_fields()]", f"(str(getattr({ra.params[-1]},_))for_inself._get_fields())") for c in iter_own(ra.node))
+    r.check(okrow, "a row lists the Result fields in declaration order", key_of(ra, "row order"), ra.loc(), "append_result no longer serialises Result._fields in order")
     gr = ctx.fn("ResultsAggregator._get_results", "C19.4")
-    r.check("csv.DictReader" in ctx.src(gr.node) and 'int(row["return_code"])'.replace('"', "'") in ctx.src(gr.node).replace('"', "'"), "rows are read back by header name; return_code as int", key_of(gr, "reader"), gr.loc(), "_get_results changed its parsing")
+    import re as _re
+
+    gsrc = ctx.src(gr.node).replace('"', "'")
+    r.check("csv.DictReader" in gsrc and bool(_re.search(r"(\w+)\['return_code'\] = int\(\1\['return_code'\]\)", gsrc)), "rows are read back by header name; return_code as int", key_of(gr, "reader"), gr.loc(), "_get_results changed its parsing")
 
 
 @rule(P, "C19.5", "T1", "--jade-job-name / --jade-runtime-output are appended exactly under append_job_name / append_output_dir", min_obligations=4)
 def c19_5(ctx, r):
     ge = ctx.fn("GenericCommandExecution.generate_command", "C19.5")
     cfg = ctx.cfg(ge)
-    pairs = {"--jade-job-name=": ("append_job_name", ("{job.name}",)), "--jade-runtime-output=": ("append_output_dir", ("{output_dir}", "{os.path.dirname(output)}"))}
+    pairs = {"--jade-job-name=": ("append_job_name", ("{job.name}",)), "--jade-runtime-output=": ("append_output_dir", ("{os.path.dirname(output)}",))}
     seen = set()
+    gret5 = [x for x in iter_own(ge.node) if isinstance(x, ast.Return) and isinstance(x.value, ast.Name)]
+    CMD5 = gret5[-1].value.id if gret5 else None
     for n in cfg.nodes:
-        if n.kind == "stmt" and isinstance(n.ast, ast.AugAssign) and ctx.src(n.ast.target) == "cmd":
-            t = ctx.src(n.ast.value)
+        if n.kind == "stmt" and isinstance(n.ast, ast.AugAssign) and CMD5 and ctx.src(n.ast.target) == CMD5:
+            t = inlined_src(ctx, ge, n.ast.value, n)
             for opt, (flag, val) in pairs.items():
                 if opt in t:
                     seen.add(opt)
@@ -222,9 +253,9 @@ def c19_5(ctx, r):
     for opt in pairs:
         if opt not in seen:
             r.bad(key_of(ge, f"{opt} missing"), ge.loc(), f"generate_command never appends {opt}", "plus the documented --jade-job-name and --jade-runtime-output arguments when requested")
-    od = [x for x in iter_own(ge.node) if isinstance(x, ast.Assign) and ctx.src(x.targets[0]) == "output_dir"]
-    inline = "{os.path.dirname(output)}" in ctx.src(ge.node)
-    r.check((len(od) == 1 and ctx.src(od[0].value) == "os.path.dirname(output)") or (not od and inline), "runtime output = parent of the job-outputs directory", key_of(ge, "output_dir"), ge.loc(), f"output_dir = {[ctx.src(x.value) for x in od]}")
+    od = []
+    inline = any("--jade-runtime-output={os.path.dirname(output)}" in inlined_src(ctx, ge, n.ast.value, n) for n in cfg.nodes if n.kind == "stmt" and isinstance(n.ast, ast.AugAssign))
+    r.check(inline, "runtime output = parent of the job-outputs directory", key_of(ge, "output_dir"), ge.loc(), f"output_dir = {[ctx.src(x.value) for x in od]}")
     gj = ctx.fn("JobRunner._generate_jobs", "C19.5")
     okj = "self._jobs_output" in ctx.src(gj.node)
     r.check(okj, "generate_command receives the runner's job-outputs directory", key_of(gj, "jobs output"), gj.loc(), "generate_command is not given self._jobs_output")
